@@ -217,3 +217,13 @@ add("blk_seek_dfcc", ["C02", "C03", "C11"], ["tu/blk_seek_dfcc.c"], "h_blk_seek_
     loops="loops/blk_seek.json", unwind=8, timeout=600, strength="U", functions=["block_iter_seek (restart search: galloping + binary search)"],
     assumptions=["restart keys are sorted (well-formed block): compare_restart_point(i) < 0 exactly for i below a ghost boundary; its own correctness: groups blk_seek_* / blk_restart64",
                  "the linear scan after the restart search and the current-entry comparison are covered by blk_seek_* (bounded)", "up to 2^31-1 restart points"])
+# ---------------------------------------------------------------- merger lookups, source_write, mtbl_dump filters
+add("mg_lookup", ["C05", "C04", "C18"], ["tu/merger_lookup.c"], "h_merger_lookup", unwind=5, timeout=600,
+    strength="B: merger_iter / merger_get / get_prefix / get_range over <= 2 sources; paths on which two sources yield an entry end at the heap's growth (cut point)",
+    functions=["merger_iter", "merger_get", "merger_get_prefix", "merger_get_range", "merger_iter_init", "merger_iter_add_entry", "merger_iter_free", "entry_fill", "heap_push", "heap_init"],
+    assumptions=["per-source lookups are recording stubs that may yield no iterator or an iterator without entries"])
+add("src_write", ["C04", "C18"], ["tu/source_write.c"], "h_source_write", unwind=6, timeout=300,
+    strength="B: mtbl_source_write over an iterator of <= 4 entries, writer refusing at any position", functions=["mtbl_source_write", "mtbl_source_init", "mtbl_source_iter"], assumptions=["iterator and writer are recording stubs"])
+add("dump_filter", ["C01", "C18"], ["tu/dump_step.c"], "h_dump_filter", unwind=5, timeout=300,
+    strength="B: mtbl_dump's dump() over <= 3 symbolic entries (keys/values <= 2 bytes), any prefixes <= 2 bytes, any minimum lengths, silent/hex flags",
+    functions=["dump (src/mtbl_dump.c)", "print_string", "print_hex_string"], assumptions=["reader/iterator stubbed; stdout functions count lines (escaping/hex formatting not checked)"])
